@@ -433,6 +433,9 @@ class Parser:
             args[0] = copy.copy(args[0])
             c = args[0].txt[0]
             args[0].txt = args[0].txt[1:]
+            if not args[0].pos_fix:
+                # the rest of the text starts one character later
+                args[0].pos += 1
 
         if not c.strip():
             c = ' '.join(self.parms.accent_macros[tok.txt])
